@@ -169,9 +169,17 @@ def _dynamic_one(ctx, tid0, desc, net, k, rng, solver, method, flags):
                     tot[eidx[e_]] += c_ * ab_[s_]
         return tot
     seqs = [[0, 1, 1, 2, 1, 1], [0, 1, 2, 1, 0, 1, 1], [0, 2, 1, 1, 1]]
+    # a TRACE element (reference ratio 3e-9 of hydrogen; judged to 1e-6 relative: the element system spans five orders of magnitude) whose atom alone is off by three per cent while everything else sits on the reference
+    # (an element carried only by species made of it alone, so that a small reference ratio does not force other carriers negative)
+    trace_el = next((e_ for e_ in ("He", "N", "O", "C") if e_ in eidx and e_ in slot and eidx[e_] != hidx
+                     and all(set(O.POOL[n_][0]) <= {e_} for n_ in slot if e_ in O.POOL[n_][0])), None)
+    if trace_el is not None:
+        seqs = seqs + [[0, 1, 100 + slot[trace_el], 1, 1]]
     lines, metas = [], []
     for q, ops in enumerate(seqs):
         refA = [rng.uniform(1e-5, 1e-3) for _ in range(nel)]
+        if q == 3:
+            refA[eidx[trace_el]] = 3.0e-9
         refA[hidx] = [1.0, 2.5e4, 0.37][q % 3]     # fractional abundances and number densities: the code divides by the H entry
         if refA[hidx] != 1.0:
             refA = [x * refA[hidx] if i != hidx else x for i, x in enumerate(refA)]
@@ -204,12 +212,13 @@ def _dynamic_one(ctx, tid0, desc, net, k, rng, solver, method, flags):
             if e["op"] == 0:
                 nset += 1
                 evs.append({"act": "SetRef", "v": "A" if nset % 2 else "B", "ok": e["ret"] == 0})
-            elif e["op"] == 2:
+            elif e["op"] == 2 or e["op"] >= 100:
                 evs.append({"act": "Perturb"})
             else:
                 finite = all(x is not None and math.isfinite(x) for x in ab) and e["hn"] is not None
                 tot = totals(ab) if finite else []
-                ratios_ok = finite and tot[hidx] and all(abs(el / tot[hidx] - r / refA[hidx]) <= 1e-9 * max(abs(r / refA[hidx]), 1e-300)
+                rtol = 1e-6 if q == 3 else 1e-9
+                ratios_ok = finite and tot[hidx] and all(abs(el / tot[hidx] - r / refA[hidx]) <= rtol * max(abs(r / refA[hidx]), 1e-300)
                                                            for el, r in zip(tot, refA))
                 same_e = finite and all(ab[s] == prev[s] for s in eslots)
                 unchanged = finite and all(abs(a - b) <= 1e-9 * max(abs(a), abs(b)) for a, b in zip(ab[:nsp], prev[:nsp]))
